@@ -727,6 +727,9 @@ ALL = {"F1": F1, "F2": F2, "F3": F3, "F4": F4, "F4b": F4b, "F5": F5, "F6": F6, "
 def run(name):
     try:
         return ALL[name]()
+    except SelfDeadlock as e:
+        # (instrumented lock: a blocking re-acquisition by its owner - the history would hang on the real locks)
+        return f"self-deadlock on {e} while replaying the history"
     except Exception as e:  # noqa: BLE001
         import traceback
         return f"witness crashed: {type(e).__name__}: {e} @ {traceback.format_exc().strip().splitlines()[-3]}"
